@@ -495,6 +495,22 @@ def run(case):
             transitions += 1
             if _fz(r3) != _fz(r1):
                 viols.append(V("C20:%s:not-idempotent:%s" % (cfg[1], raw[0]), "%s: clean(%r) = %r but clean of that = %r" % (cname, raw, _fz(r1), _fz(r3)), **tag))
+    # the process's CURRENT DIRECTORY is not a working directory: with no working directory (or an absolute one), cleaning a path gives the same
+    # outcome whether or not the current directory happens to hold a file of that relative name
+    if isinstance(kind, tuple) and kind[0] == "Path" and wdname in ("none", "abs"):
+        here = os.getcwd()
+        try:
+            os.chdir(base)
+            for ri, raw in enumerate(RAWS):
+                if ri in skip or raw[0] != "str" or raw[1].startswith(("ABS", "WDIR")):
+                    continue
+                rc_ = _clean(_make_param(cfg), _mk(raw, p, base), p)
+                transitions += 1
+                if _fz(rc_) != _fz(fresh[ri]):
+                    viols.append(V("C20:%s:depends-on-current-directory" % cfg[1], "%s.clean(%r) gives %r when the current directory holds exists.csv, %r otherwise" % (
+                        cname, raw, _fz(rc_), _fz(fresh[ri])), parameter=cname, raw=repr(raw), working_dir=wdname))
+        finally:
+            os.chdir(here)
     # histories on one object
     sub = [i for i in range(len(RAWS)) if i not in skip and "freecmd" not in repr(RAWS[i])]  # (a new program-less object per use: nothing to compare across histories)
     for a, b in itertools.product(sub, repeat=2):
